@@ -1,6 +1,6 @@
 """./check <id> quick|thorough | --replay <file>   — orchestrates one property check (DESIGN.md §6)."""
 import importlib, json, os, sys, time, traceback
-from . import common
+from . import common, gen_tie
 from .common import Ctx, Infra
 
 ASSUMPTIONS = [
@@ -30,6 +30,12 @@ def main(argv):
     ctx = Ctx(prop, tier, seed)
     try:
         audit = common.lean_audit(prop)
+        tie = gen_tie.translate_and_build(prop)     # definitions regenerated from the source vs the model
+        audit["ok"] = audit["ok"] and tie["ok"]
+        audit["problems"] += tie["problems"]
+        audit["theorems"] += tie["theorems"]
+        audit["obligations"] += tie["obligations"]
+        audit["discharged"] += tie["discharged"]
         if tier == "thorough" and audit["ok"] and not replay_path:
             ok, log = common.leanchecker(["Qv.Props." + prop])
             ctx.notes.append("leanchecker Qv.Props.%s: %s" % (prop, "ok" if ok else "FAILED " + log))
@@ -92,7 +98,8 @@ def main(argv):
     if not replay_path:
         common.write_evidence(prop, tier, seed, ctx, audit, "proof", getattr(mod, "RULE", ""),
                               len(new), ASSUMPTIONS + getattr(mod, "ASSUMPTIONS", []),
-                              extra=dict(known_findings_reproduced=sorted(seen_known)))
+                              extra=dict(known_findings_reproduced=sorted(seen_known),
+                                         generated_from_source=tie["functions"]))
     print("%s %s seed=%d: %d evaluations, %d distinct non-trivial, %d theorems (%d discharged), "
           "%d correspondence differences, %d violations, %.1fs" % (
               prop, tier, seed, ctx.evaluations, len(ctx.distinct), audit["obligations"], audit["discharged"],
